@@ -119,7 +119,48 @@ def run_tree_groups(v, seed, n, maxlen, budget, kinds, signature, ledger_every=1
     return cov
 
 
-def run_protocol_only(v, fam, n, name, pool_extra=("1", "2", "x", "--", "--zz", "--help")):
+def phrase_line(rnd, d):
+    """a line made of whole phrases of the definition, built the way the definition nests: a command's name followed by
+    the phrases of its members, a group's tag followed by its members - and, often, one switch of the SAME command (or
+    level) dropped somewhere inside a group's phrase (a block cut in two), with more items after it"""
+    def name(n):
+        return (n["shorts"] + n["longs"])[0]
+    def phrase(node, sibs):
+        k = node.get("kind")
+        if k in ("switch", "reqflag"):
+            return [name(node)]
+        if k == "arg":
+            return [name(node), rnd.choice(["1", "2"])]
+        if k == "pos":
+            return [rnd.choice(["1", "2"])]
+        if k == "adj" and "head" in node:
+            h = node["head"]
+            own = [m for m in node["members"] if m.get("kind") in ("switch", "reqflag")]
+            ph = [h["names"][0]] if h["kind"] == "cmd" else [h["lit"]] if h.get("kind") == "lit" else [name(h)]
+            body = []
+            for m in node["members"]:
+                if m.get("kind") in ("switch", "reqflag") and rnd.random() < 0.6:
+                    continue
+                body += phrase(m, own if h["kind"] == "cmd" else sibs)
+            # a switch claimed before this group is looked for, typed inside the group's phrase
+            if h["kind"] != "cmd" and sibs and body and rnd.random() < 0.5:
+                body.insert(rnd.randint(0, len(body) - 1) if len(body) > 1 else 0, name(rnd.choice(sibs)))
+            return ph + body
+        if k == "alt":
+            b = rnd.choice(node["branches"])
+            return [x for f in b["fields"] for x in phrase(f, sibs)]
+        return []
+    top = [f for f in d["named"]]
+    tsw = [f for f in top if f.get("kind") in ("switch", "reqflag")]
+    argv = []
+    for _ in range(rnd.randint(1, 3)):
+        argv += phrase(rnd.choice(top), tsw)
+    for _ in range(rnd.choice([0, 1, 1, 2])):
+        argv.append(rnd.choice(["x", "1"] + [name(f) for f in tsw]))
+    return argv
+
+
+def run_protocol_only(v, fam, n, name, pool_extra=("1", "2", "x", "--", "--zz", "--help"), phrases=False):
     """shapes the acceptors do not model: random lines over the definition's names are run with the hooks on and judged
     by the ledger protocol alone (LedgerTrace: contiguous blocks, scopes restored, exactly-once, verdicts); a panic is a
     violation as everywhere"""
@@ -148,6 +189,9 @@ def run_protocol_only(v, fam, n, name, pool_extra=("1", "2", "x", "--", "--zz", 
             d = fam[i % len(fam)]
             voc = names(d, [])
             argv = []
+            if phrases and i % 2:
+                w.write(json.dumps({"def": d["id"], "argv": phrase_line(rnd, d)}) + "\n")
+                continue
             for _ in range(rnd.randint(0, 9)):
                 r = rnd.random()
                 if r < 0.6 and voc:
